@@ -70,7 +70,7 @@ type c17Case struct {
 	Flavour string            `json:"flavour,omitempty"`
 }
 
-var targetFlags = [7]string{"group", "version", "kind", "name", "namespace", "annotation-selector", "label-selector"}
+var c17TargetFlags = [7]string{"group", "version", "kind", "name", "namespace", "annotation-selector", "label-selector"}
 
 func (o c17Op) cli() []string {
 	w := strings.SplitN(o.Kind, " ", 2)
@@ -134,14 +134,14 @@ func (o c17Op) cli() []string {
 		}
 		for i, v := range o.Target {
 			if v != "" {
-				a = append(a, "--"+targetFlags[i]+"="+v)
+				a = append(a, "--"+c17TargetFlags[i]+"="+v)
 			}
 		}
 	}
 	return a
 }
 
-func selTerm(t [7]string) string {
+func c17SelTerm(t [7]string) string {
 	p := make([]string, 7)
 	for i, v := range t {
 		p[i] = coqStr(v)
@@ -200,9 +200,9 @@ func (o c17Op) term() string {
 	case "remove secret":
 		return fmt.Sprintf("(RemoveSecret %s %s)", pos, coqStr(o.Namespace))
 	case "add patch":
-		return fmt.Sprintf("(AddPatch %s %s %s)", coqStr(o.Path), coqStr(o.Patch), selTerm(o.Target))
+		return fmt.Sprintf("(AddPatch %s %s %s)", coqStr(o.Path), coqStr(o.Patch), c17SelTerm(o.Target))
 	case "remove patch":
-		return fmt.Sprintf("(RemovePatch %s %s %s)", coqStr(o.Path), coqStr(o.Patch), selTerm(o.Target))
+		return fmt.Sprintf("(RemovePatch %s %s %s)", coqStr(o.Path), coqStr(o.Patch), c17SelTerm(o.Target))
 	case "set image":
 		return fmt.Sprintf("(SetImage %s)", pos)
 	case "set replicas":
@@ -414,19 +414,19 @@ func c17FieldByName(n string) (c17Field, bool) {
 
 // ---------------------------------------------------------------- Coq terms
 
-func splitLines(b []byte) (lines []string, tail string, hasTail bool) {
+func c17SplitLines(b []byte) (lines []string, tail string, hasTail bool) {
 	parts := strings.Split(string(b), "\n")
 	lines = parts[:len(parts)-1]
 	tail = parts[len(parts)-1]
 	return lines, tail, tail != ""
 }
 
-func fileTerm(b []byte) string {
-	lines, tail, has := splitLines(b)
+func c17FileTerm(b []byte) string {
+	lines, tail, has := c17SplitLines(b)
 	return fmt.Sprintf("(mkFile %s %s)", coqStrList(lines), coqOpt(has, coqStr(tail)))
 }
 
-func smapTerm(m map[string]string) string {
+func c17SmapTerm(m map[string]string) string {
 	keys := make([]string, 0, len(m))
 	for k := range m {
 		keys = append(keys, k)
@@ -439,9 +439,9 @@ func smapTerm(m map[string]string) string {
 	return "[" + strings.Join(p, "; ") + "]"
 }
 
-func smapoTerm(m map[string]string) string { return coqOpt(m != nil, smapTerm(m)) }
+func c17SmapoTerm(m map[string]string) string { return coqOpt(m != nil, c17SmapTerm(m)) }
 
-func jsonTok(v interface{}) string {
+func c17JsonTok(v interface{}) string {
 	b, err := json.Marshal(v)
 	if err != nil {
 		return "!" + err.Error()
@@ -449,16 +449,16 @@ func jsonTok(v interface{}) string {
 	return string(b)
 }
 
-func labelTerm(l types.Label) string {
-	return fmt.Sprintf("(mkLabel %s %s %s %s)", smapoTerm(l.Pairs), coqBool(l.IncludeSelectors), coqBool(l.IncludeTemplates),
-		coqOpt(len(l.FieldSpecs) > 0, coqStr(jsonTok(l.FieldSpecs))))
+func c17LabelTerm(l types.Label) string {
+	return fmt.Sprintf("(mkLabel %s %s %s %s)", c17SmapoTerm(l.Pairs), coqBool(l.IncludeSelectors), coqBool(l.IncludeTemplates),
+		coqOpt(len(l.FieldSpecs) > 0, coqStr(c17JsonTok(l.FieldSpecs))))
 }
 
-func selectorTerm(s *types.Selector) string {
-	return selTerm([7]string{s.Group, s.Version, s.Kind, s.Name, s.Namespace, s.AnnotationSelector, s.LabelSelector})
+func c17SelectorTerm(s *types.Selector) string {
+	return c17SelTerm([7]string{s.Group, s.Version, s.Kind, s.Name, s.Namespace, s.AnnotationSelector, s.LabelSelector})
 }
 
-func patchTerm(p types.Patch) string {
+func c17PatchTerm(p types.Patch) string {
 	opt := "None"
 	if p.Options != nil {
 		keys := make([]string, 0, len(p.Options))
@@ -474,31 +474,31 @@ func patchTerm(p types.Patch) string {
 	}
 	tgt := "None"
 	if p.Target != nil {
-		tgt = "(Some " + selectorTerm(p.Target) + ")"
+		tgt = "(Some " + c17SelectorTerm(p.Target) + ")"
 	}
 	return fmt.Sprintf("(mkPatch %s %s %s %s)", coqStr(p.Path), coqStr(p.Patch), tgt, opt)
 }
 
-func imageTerm(i types.Image) string {
+func c17ImageTerm(i types.Image) string {
 	return fmt.Sprintf("(mkImage %s %s %s %s %s)", coqStr(i.Name), coqStr(i.NewName), coqStr(i.TagSuffix), coqStr(i.NewTag), coqStr(i.Digest))
 }
 
-func zTerm(n int64) string { return fmt.Sprintf("(%d)%%Z", n) }
+func c17ZTerm(n int64) string { return fmt.Sprintf("(%d)%%Z", n) }
 
-func genoptsTerm(g *types.GeneratorOptions) string {
+func c17GenoptsTerm(g *types.GeneratorOptions) string {
 	if g == nil {
 		return "None"
 	}
-	return fmt.Sprintf("(Some (mkGo %s %s %s %s))", smapoTerm(g.Labels), smapoTerm(g.Annotations), coqBool(g.DisableNameSuffixHash), coqBool(g.Immutable))
+	return fmt.Sprintf("(Some (mkGo %s %s %s %s))", c17SmapoTerm(g.Labels), c17SmapoTerm(g.Annotations), coqBool(g.DisableNameSuffixHash), coqBool(g.Immutable))
 }
 
-func genargsTerm(g types.GeneratorArgs, typ string) string {
+func c17GenargsTerm(g types.GeneratorArgs, typ string) string {
 	return fmt.Sprintf("(mkGa %s %s %s %s %s %s %s %s %s)", coqStr(g.Namespace), coqStr(g.Name), coqStr(g.Behavior),
 		coqStrList(g.LiteralSources), coqStrList(g.FileSources), coqStrList(g.EnvSources), coqStr(g.EnvSource),
-		genoptsTerm(g.Options), coqStr(typ))
+		c17GenoptsTerm(g.Options), coqStr(typ))
 }
 
-func listTerm[T any](l []T, f func(T) string) string {
+func c17ListTerm[T any](l []T, f func(T) string) string {
 	p := make([]string, len(l))
 	for i, x := range l {
 		p[i] = f(x)
@@ -508,8 +508,8 @@ func listTerm[T any](l []T, f func(T) string) string {
 
 var c17Opaque = []string{"MetaData", "OpenAPI", "Crds", "Replacements", "Vars", "SortOptions", "HelmGlobals", "HelmCharts", "Configurations", "Validators"}
 
-// kustTerm prints the record of Edit/Kust.v; ok=false when the value is outside the model's domain.
-func kustTerm(k *types.Kustomization) (string, bool) {
+// c17KustTerm prints the record of Edit/Kust.v; ok=false when the value is outside the model's domain.
+func c17KustTerm(k *types.Kustomization) (string, bool) {
 	if len(k.HelmChartInflationGenerator) > 0 {
 		return "", false
 	}
@@ -523,53 +523,53 @@ func kustTerm(k *types.Kustomization) (string, bool) {
 		f, _ := c17FieldByName(n)
 		v := rv.FieldByIndex(f.index)
 		if !c17IsEmpty(v) {
-			other = append(other, fmt.Sprintf("(%s, %s)", coqStr(n), coqStr(jsonTok(v.Interface()))))
+			other = append(other, fmt.Sprintf("(%s, %s)", coqStr(n), coqStr(c17JsonTok(v.Interface()))))
 		}
 	}
 	parts := []string{
 		coqStr(k.APIVersion), coqStr(k.Kind), coqStr(k.NamePrefix), coqStr(k.NameSuffix), coqStr(k.Namespace),
-		smapoTerm(k.CommonLabels), listTerm(k.Labels, labelTerm), smapoTerm(k.CommonAnnotations),
-		coqStrList(sm), listTerm(k.PatchesJson6902, patchTerm), listTerm(k.Patches, patchTerm),
-		listTerm(k.Images, imageTerm), listTerm(k.ImageTags, imageTerm),
-		listTerm(k.Replicas, func(r types.Replica) string { return fmt.Sprintf("(mkReplica %s %s)", coqStr(r.Name), zTerm(r.Count)) }),
+		c17SmapoTerm(k.CommonLabels), c17ListTerm(k.Labels, c17LabelTerm), c17SmapoTerm(k.CommonAnnotations),
+		coqStrList(sm), c17ListTerm(k.PatchesJson6902, c17PatchTerm), c17ListTerm(k.Patches, c17PatchTerm),
+		c17ListTerm(k.Images, c17ImageTerm), c17ListTerm(k.ImageTags, c17ImageTerm),
+		c17ListTerm(k.Replicas, func(r types.Replica) string { return fmt.Sprintf("(mkReplica %s %s)", coqStr(r.Name), c17ZTerm(r.Count)) }),
 		coqStrList(k.Resources), coqStrList(k.Components), coqStrList(k.Bases),
-		listTerm(k.ConfigMapGenerator, func(a types.ConfigMapArgs) string { return genargsTerm(a.GeneratorArgs, "") }),
-		listTerm(k.SecretGenerator, func(a types.SecretArgs) string { return genargsTerm(a.GeneratorArgs, a.Type) }),
-		genoptsTerm(k.GeneratorOptions),
+		c17ListTerm(k.ConfigMapGenerator, func(a types.ConfigMapArgs) string { return c17GenargsTerm(a.GeneratorArgs, "") }),
+		c17ListTerm(k.SecretGenerator, func(a types.SecretArgs) string { return c17GenargsTerm(a.GeneratorArgs, a.Type) }),
+		c17GenoptsTerm(k.GeneratorOptions),
 		coqStrList(k.Generators), coqStrList(k.Transformers), coqStrList(k.BuildMetadata),
 		"[" + strings.Join(other, "; ") + "]",
 	}
 	return "(mkKust " + strings.Join(parts, " ") + ")", true
 }
 
-func rkustTerm(b []byte) (string, bool) {
+func c17RkustTerm(b []byte) (string, bool) {
 	k, err := c17Unmarshal(b)
 	if err != nil {
 		return "Err", true
 	}
-	t, ok := kustTerm(k)
+	t, ok := c17KustTerm(k)
 	if !ok {
 		return "", false
 	}
 	return "(Ok " + t + ")", true
 }
 
-// renderTable: Go field name -> lines of yaml.Marshal of the one-field struct (marshalField's
+// c17RenderTable: Go field name -> lines of yaml.Marshal of the one-field struct (marshalField's
 // output), for every field that is serialised at all.
-func renderTable(k *types.Kustomization) string {
+func c17RenderTable(k *types.Kustomization) string {
 	var p []string
 	for _, f := range c17Fields {
 		b, err := yaml.Marshal(c17Single(k, f))
 		if err != nil || string(b) == "{}\n" {
 			continue
 		}
-		lines, _, _ := splitLines(b)
+		lines, _, _ := c17SplitLines(b)
 		p = append(p, fmt.Sprintf("(%s, %s)", coqStr(f.goName), coqStrList(lines)))
 	}
 	return "[" + strings.Join(p, "; ") + "]"
 }
 
-func envTerm(c *c17Case) string {
+func c17EnvTerm(c *c17Case) string {
 	names := []string{c.KPath}
 	for n := range c.Files {
 		names = append(names, n)
@@ -582,7 +582,7 @@ func envTerm(c *c17Case) string {
 		if n == c.KPath {
 			content = "" // never loaded as an env file by the generator's domain
 		}
-		fl = append(fl, fmt.Sprintf("(%s, %s)", coqStr(n), coqStrList(envKeys(content))))
+		fl = append(fl, fmt.Sprintf("(%s, %s)", coqStr(n), coqStrList(c17EnvKeysOf(content))))
 		for d := path.Dir(n); d != "." && d != "/" && d != ""; d = path.Dir(d) {
 			dirs[d] = true
 		}
@@ -590,8 +590,8 @@ func envTerm(c *c17Case) string {
 	return fmt.Sprintf("(mkEnv [%s] %s %s)", strings.Join(fl, "; "), coqStrList(sortedKeys(dirs)), coqStr(c.KPath))
 }
 
-// envKeys: keys kv.keyValuesFromLines yields for a file (ASCII content of the generator's domain).
-func envKeys(content string) []string {
+// c17EnvKeys: keys kv.keyValuesFromLines yields for a file (ASCII content of the generator's domain).
+func c17EnvKeysOf(content string) []string {
 	var out []string
 	for _, l := range strings.Split(content, "\n") {
 		l = strings.TrimLeft(l, " \t")
@@ -629,38 +629,38 @@ func c17RunSeq(c *c17Case) []c17StepObs {
 }
 
 func c17CaseTerm(c *c17Case, obs []c17StepObs) (string, bool) {
-	k0, ok := rkustTerm([]byte(c.Init))
+	k0, ok := c17RkustTerm([]byte(c.Init))
 	if !ok {
 		return "", false
 	}
 	var steps []string
 	for i, o := range c.Ops {
-		kt, ok := rkustTerm(obs[i].after)
+		kt, ok := c17RkustTerm(obs[i].after)
 		if !ok {
 			return "", false
 		}
 		tbl := "[]"
 		if k, err := c17Unmarshal(obs[i].after); err == nil {
-			tbl = renderTable(k)
+			tbl = c17RenderTable(k)
 		}
-		steps = append(steps, fmt.Sprintf("(mkStep17 %s %s %s %s %s)", o.term(), obs[i].cls, fileTerm(obs[i].after), kt, tbl))
+		steps = append(steps, fmt.Sprintf("(mkStep17 %s %s %s %s %s)", o.term(), obs[i].cls, c17FileTerm(obs[i].after), kt, tbl))
 	}
-	return poolStrings(fmt.Sprintf("(mkCase17 %s %s %s [%s])", envTerm(c), fileTerm([]byte(c.Init)), k0, strings.Join(steps, ";\n    "))), true
+	return c17PoolStrings(fmt.Sprintf("(mkCase17 %s %s %s [%s])", c17EnvTerm(c), c17FileTerm([]byte(c.Init)), k0, strings.Join(steps, ";\n    "))), true
 }
 
-var coqStrLit = regexp.MustCompile(`"(?:[^"]|"")*"`)
+var c17CoqStrLit = regexp.MustCompile(`"(?:[^"]|"")*"`)
 
-// poolStrings binds every string literal that occurs more than once in a case term to a
+// c17PoolStrings binds every string literal that occurs more than once in a case term to a
 // let-variable: Coq elaborates a string literal in time proportional to its length (about 50 us
 // per character), and the same file lines recur in every step of a sequence.
-func poolStrings(term string) string {
+func c17PoolStrings(term string) string {
 	count := map[string]int{}
-	for _, l := range coqStrLit.FindAllString(term, -1) {
+	for _, l := range c17CoqStrLit.FindAllString(term, -1) {
 		count[l]++
 	}
 	names := map[string]string{}
 	var order []string
-	body := coqStrLit.ReplaceAllStringFunc(term, func(l string) string {
+	body := c17CoqStrLit.ReplaceAllStringFunc(term, func(l string) string {
 		if count[l] < 2 || len(l) < 5 {
 			return l
 		}
@@ -684,40 +684,40 @@ func poolStrings(term string) string {
 
 // ---------------------------------------------------------------- law oracles on the implementation
 
-func isCommentLike(l string) bool {
+func c17IsCommentLike(l string) bool {
 	s := strings.TrimLeft(l, " ")
 	return s == "" || s[0] == '#'
 }
 
-func commentLines(b []byte) []string {
-	lines, tail, has := splitLines(b)
+func c17CommentLines(b []byte) []string {
+	lines, tail, has := c17SplitLines(b)
 	var out []string
 	for _, l := range lines {
-		if isCommentLike(l) {
+		if c17IsCommentLike(l) {
 			out = append(out, l)
 		}
 	}
-	if has && isCommentLike(tail) {
+	if has && c17IsCommentLike(tail) {
 		out = append(out, tail)
 	}
 	return out
 }
 
-// trailingComments: the comment lines that no newline-terminated non-comment line follows.
-func trailingComments(b []byte) []string {
-	lines, tail, has := splitLines(b)
+// c17TrailingComments: the comment lines that no newline-terminated non-comment line follows.
+func c17TrailingComments(b []byte) []string {
+	lines, tail, has := c17SplitLines(b)
 	i := len(lines)
-	for i > 0 && isCommentLike(lines[i-1]) {
+	for i > 0 && c17IsCommentLike(lines[i-1]) {
 		i--
 	}
 	out := append([]string{}, lines[i:]...)
-	if has && isCommentLike(tail) {
+	if has && c17IsCommentLike(tail) {
 		out = append(out, tail)
 	}
 	return out
 }
 
-func multisetMinus(a, b []string) []string {
+func c17MultisetMinus(a, b []string) []string {
 	cnt := map[string]int{}
 	for _, x := range b {
 		cnt[x]++
@@ -733,7 +733,7 @@ func multisetMinus(a, b []string) []string {
 	return out
 }
 
-func fixedOf(b []byte) (*types.Kustomization, error) {
+func c17FixedOf(b []byte) (*types.Kustomization, error) {
 	k, err := c17Unmarshal(b)
 	if err != nil {
 		return nil, err
@@ -742,9 +742,9 @@ func fixedOf(b []byte) (*types.Kustomization, error) {
 	return k, nil
 }
 
-// absorbedShape: the new JSON differs from the old only in string leaves that grew by appended
+// c17AbsorbedShape: the new JSON differs from the old only in string leaves that grew by appended
 // comment-looking lines (an indented comment re-emitted after a block scalar).
-func absorbedShape(oldJ, newJ string) bool {
+func c17AbsorbedShape(oldJ, newJ string) bool {
 	var a, b interface{}
 	if json.Unmarshal([]byte(oldJ), &a) != nil || json.Unmarshal([]byte(newJ), &b) != nil {
 		return false
@@ -766,7 +766,7 @@ func absorbedShape(oldJ, newJ string) bool {
 			}
 			rest := strings.TrimPrefix(yv[len(xv):], "\n")
 			for _, l := range strings.Split(strings.TrimSuffix(rest, "\n"), "\n") {
-				if !isCommentLike(l) {
+				if !c17IsCommentLike(l) {
 					return false
 				}
 			}
@@ -802,11 +802,11 @@ func absorbedShape(oldJ, newJ string) bool {
 	return cmp(a, b) && grew
 }
 
-func isSetKind(k string) bool { return strings.HasPrefix(k, "set ") }
+func c17IsSetKind(k string) bool { return strings.HasPrefix(k, "set ") }
 
-// inverseOf: the matching remove command of an add command, and whether the theorem's guard holds
+// c17InverseOf: the matching remove command of an add command, and whether the theorem's guard holds
 // on the state before the add (k = Fix'd content before).
-func inverseOf(o c17Op, k *types.Kustomization, c *c17Case) (c17Op, bool) {
+func c17InverseOf(o c17Op, k *types.Kustomization, c *c17Case) (c17Op, bool) {
 	plain := func(s string) bool { return !strings.ContainsAny(s, "*?[\\,") && s != "" }
 	contains := func(l []string, s string) bool {
 		for _, x := range l {
@@ -890,7 +890,7 @@ func inverseOf(o c17Op, k *types.Kustomization, c *c17Case) (c17Op, bool) {
 	return c17Op{}, false
 }
 
-func wholeJSON(k *types.Kustomization) string {
+func c17WholeJSON(k *types.Kustomization) string {
 	b, _ := json.Marshal(k)
 	return string(b)
 }
@@ -918,8 +918,8 @@ func c17Laws(r *Run, c *c17Case, obs []c17StepObs) {
 			prev = after
 			continue
 		}
-		kPrev, errPrev := fixedOf(prev)
-		kNew, errNew := fixedOf(after)
+		kPrev, errPrev := c17FixedOf(prev)
+		kNew, errNew := c17FixedOf(after)
 		// still parses
 		if errPrev == nil && errNew != nil {
 			viol("still_parses", "unparsable-after:"+o.Kind, fmt.Sprintf("step %d %v: %v\n%s", i, o.cli(), errNew, after))
@@ -942,16 +942,16 @@ func c17Laws(r *Run, c *c17Case, obs []c17StepObs) {
 			jo, jn := c17FieldJSON(kPrev, f), c17FieldJSON(kNew, f)
 			if jo != jn {
 				cls := "frame:" + o.Kind + ":" + f.goName
-				if absorbedShape(jo, jn) {
+				if c17AbsorbedShape(jo, jn) {
 					cls = "comment-line-absorbed-into-block-scalar"
 				}
 				viol("frame", cls, fmt.Sprintf("step %d %v changed field %s: %s -> %s", i, o.cli(), f.goName, jo, jn))
 			}
 		}
 		// comments
-		lost := multisetMinus(commentLines(prev), commentLines(after))
+		lost := c17MultisetMinus(c17CommentLines(prev), c17CommentLines(after))
 		if len(lost) > 0 {
-			other := multisetMinus(lost, trailingComments(prev))
+			other := c17MultisetMinus(lost, c17TrailingComments(prev))
 			if len(other) == 0 {
 				viol("comments_kept", "trailing-comment-dropped", fmt.Sprintf("step %d %v dropped the trailing comment lines %q", i, o.cli(), lost))
 			} else {
@@ -959,46 +959,46 @@ func c17Laws(r *Run, c *c17Case, obs []c17StepObs) {
 			}
 		}
 		// set idempotence: the same command again leaves the typed content unchanged
-		if isSetKind(o.Kind) && obs[i].cls == ClsOk {
+		if c17IsSetKind(o.Kind) && obs[i].cls == ClsOk {
 			fs := c17MakeFs(c, after)
 			defer fs.close()
 			cls2, msg2 := c17Exec(fs, o.cli())
 			again := fs.read(c.KPath)
-			k2, err2 := fixedOf(again)
+			k2, err2 := c17FixedOf(again)
 			if cls2 != ClsOk || err2 != nil {
 				viol("set_idempotent", "set-twice-fails:"+o.Kind, fmt.Sprintf("step %d %v second run: %s %s %v", i, o.cli(), cls2, msg2, err2))
-			} else if wholeJSON(k2) != wholeJSON(kNew) {
+			} else if c17WholeJSON(k2) != c17WholeJSON(kNew) {
 				cls := "set-not-idempotent:" + o.Kind
-				if absorbedShape(wholeJSON(kNew), wholeJSON(k2)) {
+				if c17AbsorbedShape(c17WholeJSON(kNew), c17WholeJSON(k2)) {
 					cls = "comment-line-absorbed-into-block-scalar"
 				}
-				viol("set_idempotent", cls, fmt.Sprintf("step %d %v: %s then %s", i, o.cli(), wholeJSON(kNew), wholeJSON(k2)))
+				viol("set_idempotent", cls, fmt.Sprintf("step %d %v: %s then %s", i, o.cli(), c17WholeJSON(kNew), c17WholeJSON(k2)))
 			}
 		}
 		// add then the matching remove restores the content
 		if strings.HasPrefix(o.Kind, "add ") && obs[i].cls == ClsOk {
-			if inv, ok := inverseOf(o, kPrev, c); ok {
+			if inv, ok := c17InverseOf(o, kPrev, c); ok {
 				fs := c17MakeFs(c, after)
 				defer fs.close()
 				cls2, msg2 := c17Exec(fs, inv.cli())
 				back := fs.read(c.KPath)
-				k2, err2 := fixedOf(back)
+				k2, err2 := c17FixedOf(back)
 				if cls2 != ClsOk || err2 != nil {
 					viol("add_remove_inverse", "inverse-fails:"+o.Kind, fmt.Sprintf("step %d %v then %v: %s %s %v", i, o.cli(), inv.cli(), cls2, msg2, err2))
-				} else if wholeJSON(k2) != wholeJSON(kPrev) {
+				} else if c17WholeJSON(k2) != c17WholeJSON(kPrev) {
 					cls := "add-remove-not-inverse:" + o.Kind
-					if absorbedShape(wholeJSON(kPrev), wholeJSON(k2)) {
+					if c17AbsorbedShape(c17WholeJSON(kPrev), c17WholeJSON(k2)) {
 						cls = "comment-line-absorbed-into-block-scalar"
 					}
 					// the patch text just added has itself grown by re-emitted comment lines, so the
 					// matching `remove patch` no longer finds it
 					if o.Kind == "add patch" && len(kNew.Patches) > 0 {
 						last := kNew.Patches[len(kNew.Patches)-1].Patch
-						if last != o.Patch && absorbedShape(jsonTok(o.Patch), jsonTok(last)) {
+						if last != o.Patch && c17AbsorbedShape(c17JsonTok(o.Patch), c17JsonTok(last)) {
 							cls = "comment-line-absorbed-into-block-scalar"
 						}
 					}
-					viol("add_remove_inverse", cls, fmt.Sprintf("step %d %v then %v: before %s after %s", i, o.cli(), inv.cli(), wholeJSON(kPrev), wholeJSON(k2)))
+					viol("add_remove_inverse", cls, fmt.Sprintf("step %d %v then %v: before %s after %s", i, o.cli(), inv.cli(), c17WholeJSON(kPrev), c17WholeJSON(k2)))
 				}
 			}
 		}
@@ -1026,7 +1026,7 @@ var (
 	c17Indented   = []string{"  # indented", "    # deep", " #one", "      # deeper"}
 )
 
-func pickSome(g *Rng, pool []string, min, max int) []string {
+func c17PickSome(g *Rng, pool []string, min, max int) []string {
 	n := min + g.Intn(max-min+1)
 	var out []string
 	for i := 0; i < n; i++ {
@@ -1035,7 +1035,7 @@ func pickSome(g *Rng, pool []string, min, max int) []string {
 	return out
 }
 
-func pickDistinct(g *Rng, pool []string, min, max int) []string {
+func c17PickDistinct(g *Rng, pool []string, min, max int) []string {
 	n := min + g.Intn(max-min+1)
 	perm := append([]string{}, pool...)
 	for i := len(perm) - 1; i > 0; i-- {
@@ -1048,15 +1048,15 @@ func pickDistinct(g *Rng, pool []string, min, max int) []string {
 	return perm[:n]
 }
 
-func genSmap(g *Rng, min, max int) map[string]string {
+func c17GenSmap(g *Rng, min, max int) map[string]string {
 	m := map[string]string{}
-	for _, k := range pickDistinct(g, c17LabelKeys, min, max) {
+	for _, k := range c17PickDistinct(g, c17LabelKeys, min, max) {
 		m[k] = g.Pick(c17LabelVals)
 	}
 	return m
 }
 
-func genPatchText(g *Rng, adversarial bool) string {
+func c17GenPatchText(g *Rng, adversarial bool) string {
 	lines := []string{"apiVersion: v1", "kind: ConfigMap", "metadata:", "  name: " + g.Pick(c17GenNames)}
 	if adversarial {
 		at := g.Intn(len(lines) + 1)
@@ -1072,7 +1072,7 @@ func genPatchText(g *Rng, adversarial bool) string {
 	return s
 }
 
-func genSelector(g *Rng) *types.Selector {
+func c17GenSelector(g *Rng) *types.Selector {
 	s := &types.Selector{}
 	if g.Chance(60) {
 		s.Kind = g.Pick([]string{"Deployment", "Service", "ConfigMap"})
@@ -1096,15 +1096,15 @@ func genSelector(g *Rng) *types.Selector {
 	return s
 }
 
-func genPatch(g *Rng, adversarial bool) types.Patch {
+func c17GenPatch(g *Rng, adversarial bool) types.Patch {
 	p := types.Patch{}
 	if g.Chance(60) {
 		p.Path = g.Pick([]string{"patch.yaml", "a.yaml", "sub/d.yaml"})
 	} else {
-		p.Patch = genPatchText(g, adversarial)
+		p.Patch = c17GenPatchText(g, adversarial)
 	}
 	if g.Chance(55) {
-		p.Target = genSelector(g)
+		p.Target = c17GenSelector(g)
 	}
 	if g.Chance(8) {
 		p.Options = map[string]bool{"allowNameChange": g.Bool()}
@@ -1114,7 +1114,7 @@ func genPatch(g *Rng, adversarial bool) types.Patch {
 	return p
 }
 
-func genGenArgs(g *Rng, files []string) types.GeneratorArgs {
+func c17GenGenArgs(g *Rng, files []string) types.GeneratorArgs {
 	a := types.GeneratorArgs{Name: g.Pick(c17GenNames)}
 	if g.Chance(30) {
 		a.Namespace = g.Pick(c17Namespaces)
@@ -1123,7 +1123,7 @@ func genGenArgs(g *Rng, files []string) types.GeneratorArgs {
 		a.Behavior = g.Pick([]string{"create", "merge", "replace"})
 	}
 	if g.Chance(60) {
-		for _, k := range pickDistinct(g, []string{"x", "y", "z", "A"}, 1, 2) {
+		for _, k := range c17PickDistinct(g, []string{"x", "y", "z", "A"}, 1, 2) {
 			a.LiteralSources = append(a.LiteralSources, k+"="+g.Pick(c17LabelVals))
 		}
 	}
@@ -1139,10 +1139,10 @@ func genGenArgs(g *Rng, files []string) types.GeneratorArgs {
 	if g.Chance(20) {
 		a.Options = &types.GeneratorOptions{}
 		if g.Chance(50) {
-			a.Options.Labels = genSmap(g, 1, 2)
+			a.Options.Labels = c17GenSmap(g, 1, 2)
 		}
 		if g.Chance(30) {
-			a.Options.Annotations = genSmap(g, 1, 1)
+			a.Options.Annotations = c17GenSmap(g, 1, 1)
 		}
 		a.Options.DisableNameSuffixHash = g.Chance(40)
 		a.Options.Immutable = g.Chance(20)
@@ -1150,8 +1150,8 @@ func genGenArgs(g *Rng, files []string) types.GeneratorArgs {
 	return a
 }
 
-// genKust: a random typed kustomization (every field the model knows, deprecated spellings included).
-func genKust(g *Rng, present []string, adversarial bool) *types.Kustomization {
+// c17GenKust: a random typed kustomization (every field the model knows, deprecated spellings included).
+func c17GenKust(g *Rng, present []string, adversarial bool) *types.Kustomization {
 	k := &types.Kustomization{}
 	if g.Chance(60) {
 		k.APIVersion = types.KustomizationVersion
@@ -1164,10 +1164,10 @@ func genKust(g *Rng, present []string, adversarial bool) *types.Kustomization {
 		k.Kind = g.Pick([]string{types.KustomizationKind, types.ComponentKind})
 	}
 	if g.Chance(70) {
-		k.Resources = pickDistinct(g, c17ResNames, 1, 4)
+		k.Resources = c17PickDistinct(g, c17ResNames, 1, 4)
 	}
 	if g.Chance(25) {
-		k.Bases = pickDistinct(g, []string{"base", "sub", "../other"}, 1, 2)
+		k.Bases = c17PickDistinct(g, []string{"base", "sub", "../other"}, 1, 2)
 	}
 	if g.Chance(30) {
 		k.NamePrefix = g.Pick([]string{"dev-", "acme-"})
@@ -1179,14 +1179,14 @@ func genKust(g *Rng, present []string, adversarial bool) *types.Kustomization {
 		k.Namespace = g.Pick([]string{"default", "prod", "staging"})
 	}
 	if g.Chance(35) {
-		k.CommonLabels = genSmap(g, 0, 3)
+		k.CommonLabels = c17GenSmap(g, 0, 3)
 	}
 	if g.Chance(30) {
 		n := 1 + g.Intn(2)
 		for i := 0; i < n; i++ {
 			l := types.Label{IncludeSelectors: g.Chance(30), IncludeTemplates: g.Chance(30)}
 			if g.Chance(88) {
-				l.Pairs = genSmap(g, 0, 2)
+				l.Pairs = c17GenSmap(g, 0, 2)
 			}
 			if g.Chance(10) {
 				l.FieldSpecs = []types.FieldSpec{{Path: "spec/x", CreateIfNotPresent: true, Gvk: resid.Gvk{Kind: "Foo"}}}
@@ -1195,10 +1195,10 @@ func genKust(g *Rng, present []string, adversarial bool) *types.Kustomization {
 		}
 	}
 	if g.Chance(25) {
-		k.CommonAnnotations = genSmap(g, 0, 2)
+		k.CommonAnnotations = c17GenSmap(g, 0, 2)
 	}
 	if g.Chance(15) {
-		for _, p := range pickDistinct(g, []string{"patch.yaml", "a.yaml", "nofile.yaml"}, 1, 2) {
+		for _, p := range c17PickDistinct(g, []string{"patch.yaml", "a.yaml", "nofile.yaml"}, 1, 2) {
 			k.PatchesStrategicMerge = append(k.PatchesStrategicMerge, types.PatchStrategicMerge(p))
 		}
 	}
@@ -1208,7 +1208,7 @@ func genKust(g *Rng, present []string, adversarial bool) *types.Kustomization {
 	if g.Chance(35) {
 		n := 1 + g.Intn(3)
 		for i := 0; i < n; i++ {
-			k.Patches = append(k.Patches, genPatch(g, adversarial))
+			k.Patches = append(k.Patches, c17GenPatch(g, adversarial))
 		}
 		if g.Chance(10) {
 			k.Patches = append(k.Patches, types.Patch{Path: "patch.yaml", Target: &types.Selector{}})
@@ -1240,39 +1240,39 @@ func genKust(g *Rng, present []string, adversarial bool) *types.Kustomization {
 		k.ImageTags = []types.Image{genImage()}
 	}
 	if g.Chance(25) {
-		for _, n := range pickSome(g, []string{"web", "db", "cache"}, 1, 3) {
+		for _, n := range c17PickSome(g, []string{"web", "db", "cache"}, 1, 3) {
 			k.Replicas = append(k.Replicas, types.Replica{Name: n, Count: int64(g.Intn(6)) - 1})
 		}
 	}
 	if g.Chance(15) {
-		k.Components = pickDistinct(g, []string{"sub", "base", "comp"}, 1, 2)
+		k.Components = c17PickDistinct(g, []string{"sub", "base", "comp"}, 1, 2)
 	}
 	if g.Chance(35) {
 		n := 1 + g.Intn(2)
 		for i := 0; i < n; i++ {
-			k.ConfigMapGenerator = append(k.ConfigMapGenerator, types.ConfigMapArgs{GeneratorArgs: genGenArgs(g, present)})
+			k.ConfigMapGenerator = append(k.ConfigMapGenerator, types.ConfigMapArgs{GeneratorArgs: c17GenGenArgs(g, present)})
 		}
 	}
 	if g.Chance(25) {
-		k.SecretGenerator = append(k.SecretGenerator, types.SecretArgs{GeneratorArgs: genGenArgs(g, present), Type: g.Pick([]string{"", "Opaque", "kubernetes.io/tls"})})
+		k.SecretGenerator = append(k.SecretGenerator, types.SecretArgs{GeneratorArgs: c17GenGenArgs(g, present), Type: g.Pick([]string{"", "Opaque", "kubernetes.io/tls"})})
 	}
 	if g.Chance(15) {
 		k.GeneratorOptions = &types.GeneratorOptions{DisableNameSuffixHash: g.Chance(50), Immutable: g.Chance(20)}
 		if g.Chance(60) {
-			k.GeneratorOptions.Labels = genSmap(g, 0, 2)
+			k.GeneratorOptions.Labels = c17GenSmap(g, 0, 2)
 		}
 		if g.Chance(30) {
-			k.GeneratorOptions.Annotations = genSmap(g, 1, 1)
+			k.GeneratorOptions.Annotations = c17GenSmap(g, 1, 1)
 		}
 	}
 	if g.Chance(12) {
-		k.Generators = pickDistinct(g, []string{"t1.yaml", "gen.yaml"}, 1, 2)
+		k.Generators = c17PickDistinct(g, []string{"t1.yaml", "gen.yaml"}, 1, 2)
 	}
 	if g.Chance(15) {
-		k.Transformers = pickDistinct(g, []string{"t1.yaml", "t2.yaml", "tr.yaml"}, 1, 2)
+		k.Transformers = c17PickDistinct(g, []string{"t1.yaml", "t2.yaml", "tr.yaml"}, 1, 2)
 	}
 	if g.Chance(15) {
-		k.BuildMetadata = pickDistinct(g, c17BuildOpts[:3], 1, 2)
+		k.BuildMetadata = c17PickDistinct(g, c17BuildOpts[:3], 1, 2)
 	}
 	// fields no edit command touches
 	if g.Chance(8) {
@@ -1311,7 +1311,7 @@ func genKust(g *Rng, present []string, adversarial bool) *types.Kustomization {
 	return k
 }
 
-var simpleItem = func(s string) bool {
+var c17SimpleItem = func(s string) bool {
 	if s == "" {
 		return false
 	}
@@ -1344,7 +1344,7 @@ func c17Layout(g *Rng, k *types.Kustomization, flavour string) string {
 			lines = []string{jn + ": {}"}
 		} else {
 			b, _ := yaml.Marshal(c17Single(k, f))
-			lines, _, _ = splitLines(b)
+			lines, _, _ = c17SplitLines(b)
 		}
 		// flow style for plain string lists
 		if v.Kind() == reflect.Slice && v.Type().Elem().Kind() == reflect.String && g.Chance(8) {
@@ -1352,7 +1352,7 @@ func c17Layout(g *Rng, k *types.Kustomization, flavour string) string {
 			var items []string
 			for i := 0; i < v.Len(); i++ {
 				s := v.Index(i).String()
-				if !simpleItem(s) {
+				if !c17SimpleItem(s) {
 					ok = false
 				}
 				items = append(items, s)
@@ -1419,7 +1419,7 @@ func c17Layout(g *Rng, k *types.Kustomization, flavour string) string {
 		out = append(out, lines...)
 	}
 	if g.Chance(25) {
-		out = append(out, pickSome(g, pool, 1, 2)...)
+		out = append(out, c17PickSome(g, pool, 1, 2)...)
 	}
 	if g.Chance(2) {
 		out = append(out, "bogusField: 1")
@@ -1448,7 +1448,7 @@ func genCase17(g *Rng, maxOps int) (*c17Case, []c17StepObs) {
 	for _, f := range c17FileUniverse {
 		if g.Chance(80) {
 			var b strings.Builder
-			for _, k := range pickDistinct(g, c17EnvKeys, 0, 3) {
+			for _, k := range c17PickDistinct(g, c17EnvKeys, 0, 3) {
 				b.WriteString(k + "=" + g.Pick([]string{"1", "v", "x y"}) + "\n")
 			}
 			if g.Chance(20) {
@@ -1458,7 +1458,7 @@ func genCase17(g *Rng, maxOps int) (*c17Case, []c17StepObs) {
 			present = append(present, f)
 		}
 	}
-	k := genKust(g, present, c.Flavour == "B")
+	k := c17GenKust(g, present, c.Flavour == "B")
 	c.Init = c17Layout(g, k, c.Flavour)
 	if g.Chance(2) {
 		// duplicated top-level key (go-yaml v2 accepts it, last one wins)
@@ -1474,7 +1474,7 @@ func genCase17(g *Rng, maxOps int) (*c17Case, []c17StepObs) {
 	defer fs.close()
 	var obs []c17StepObs
 	for i := 0; i < n; i++ {
-		kc, _ := fixedOf(cur)
+		kc, _ := c17FixedOf(cur)
 		if kc == nil {
 			kc = &types.Kustomization{}
 		}
@@ -1489,20 +1489,20 @@ func genCase17(g *Rng, maxOps int) (*c17Case, []c17StepObs) {
 	return c, obs
 }
 
-func existingOr(g *Rng, existing []string, pool []string) string {
+func c17ExistingOr(g *Rng, existing []string, pool []string) string {
 	if len(existing) > 0 && g.Chance(60) {
 		return g.Pick(existing)
 	}
 	return g.Pick(pool)
 }
 
-func genKV(g *Rng, existing map[string]string) string {
+func c17GenKV(g *Rng, existing map[string]string) string {
 	var keys []string
 	for k := range existing {
 		keys = append(keys, k)
 	}
 	sort.Strings(keys)
-	key := existingOr(g, keys, c17LabelKeys)
+	key := c17ExistingOr(g, keys, c17LabelKeys)
 	switch n := g.Intn(100); {
 	case n < 75:
 		return key + ":" + g.Pick([]string{"web", "prod", "1", "v2", "\"quoted\"", "a:b"})
@@ -1546,7 +1546,7 @@ func genOp17(g *Rng, k *types.Kustomization, present []string, adversarial bool)
 	pathArg := func(existing []string) string {
 		switch n := g.Intn(100); {
 		case n < 55:
-			return existingOr(g, existing, c17ResNames)
+			return c17ExistingOr(g, existing, c17ResNames)
 		case n < 85:
 			return g.Pick(c17Patterns)
 		default:
@@ -1581,7 +1581,7 @@ func genOp17(g *Rng, k *types.Kustomization, present []string, adversarial bool)
 			o.Pos = append(o.Pos, pathArg(k.Resources))
 		}
 	case "remove transformer":
-		o.Pos = []string{existingOr(g, k.Transformers, []string{"t1.yaml", "t?.yaml", "*"})}
+		o.Pos = []string{c17ExistingOr(g, k.Transformers, []string{"t1.yaml", "t?.yaml", "*"})}
 	case "add label":
 		o.WoSel = g.Chance(35)
 		o.Tpl = g.Chance(15)
@@ -1596,23 +1596,23 @@ func genOp17(g *Rng, k *types.Kustomization, present []string, adversarial bool)
 				}
 			}
 		}
-		o.Pos = []string{genKV(g, m)}
+		o.Pos = []string{c17GenKV(g, m)}
 		if g.Chance(35) {
-			o.Pos = append(o.Pos, genKV(g, m))
+			o.Pos = append(o.Pos, c17GenKV(g, m))
 		}
 	case "add annotation":
 		o.Force = g.Chance(30)
-		o.Pos = []string{genKV(g, k.CommonAnnotations)}
+		o.Pos = []string{c17GenKV(g, k.CommonAnnotations)}
 		if g.Chance(30) {
-			o.Pos = append(o.Pos, genKV(g, k.CommonAnnotations))
+			o.Pos = append(o.Pos, c17GenKV(g, k.CommonAnnotations))
 		}
 	case "set label":
-		o.Pos = []string{genKV(g, k.CommonLabels)}
+		o.Pos = []string{c17GenKV(g, k.CommonLabels)}
 		if g.Chance(30) {
-			o.Pos = append(o.Pos, genKV(g, k.CommonLabels))
+			o.Pos = append(o.Pos, c17GenKV(g, k.CommonLabels))
 		}
 	case "set annotation":
-		o.Pos = []string{genKV(g, k.CommonAnnotations)}
+		o.Pos = []string{c17GenKV(g, k.CommonAnnotations)}
 		if g.Chance(25) {
 			o.Pos = append(o.Pos, g.Pick([]string{"-bad:1", "a/b/c:1", "UPPER_ok:1", "x*y:2", "ok.key/name-1:3", "/x:1"}))
 		}
@@ -1626,9 +1626,9 @@ func genOp17(g *Rng, k *types.Kustomization, present []string, adversarial bool)
 			keys = append(keys, key)
 		}
 		sort.Strings(keys)
-		a := existingOr(g, keys, c17LabelKeys)
+		a := c17ExistingOr(g, keys, c17LabelKeys)
 		if g.Chance(30) {
-			a += "," + existingOr(g, keys, c17LabelKeys)
+			a += "," + c17ExistingOr(g, keys, c17LabelKeys)
 		}
 		if g.Chance(4) {
 			a += ","
@@ -1639,7 +1639,7 @@ func genOp17(g *Rng, k *types.Kustomization, present []string, adversarial bool)
 			o.Pos = append(o.Pos, "extra")
 		}
 	case "add buildmetadata", "remove buildmetadata", "set buildmetadata":
-		a := existingOr(g, k.BuildMetadata, c17BuildOpts)
+		a := c17ExistingOr(g, k.BuildMetadata, c17BuildOpts)
 		if g.Chance(35) {
 			a += "," + g.Pick(c17BuildOpts)
 		}
@@ -1655,10 +1655,10 @@ func genOp17(g *Rng, k *types.Kustomization, present []string, adversarial bool)
 				names = append(names, x.Name)
 			}
 		}
-		o.Pos = []string{existingOr(g, names, c17GenNames)}
+		o.Pos = []string{c17ExistingOr(g, names, c17GenNames)}
 		switch n := g.Intn(100); {
 		case n < 55:
-			for _, key := range pickDistinct(g, []string{"x", "y", "z", "A", "k1"}, 1, 2) {
+			for _, key := range c17PickDistinct(g, []string{"x", "y", "z", "A", "k1"}, 1, 2) {
 				o.Literals = append(o.Literals, key+"="+g.Pick([]string{"1", "v", "a=b", "'q'"}))
 			}
 			if g.Chance(25) {
@@ -1700,7 +1700,7 @@ func genOp17(g *Rng, k *types.Kustomization, present []string, adversarial bool)
 				names = append(names, x.Name)
 			}
 		}
-		a := existingOr(g, names, c17GenNames)
+		a := c17ExistingOr(g, names, c17GenNames)
 		if g.Chance(25) {
 			a += "," + g.Pick(c17GenNames)
 		}
@@ -1716,7 +1716,7 @@ func genOp17(g *Rng, k *types.Kustomization, present []string, adversarial bool)
 				o.Target = [7]string{p.Target.Group, p.Target.Version, p.Target.Kind, p.Target.Name, p.Target.Namespace, p.Target.AnnotationSelector, p.Target.LabelSelector}
 			}
 		} else {
-			p := genPatch(g, adversarial)
+			p := c17GenPatch(g, adversarial)
 			o.Path, o.Patch = p.Path, p.Patch
 			if p.Target != nil {
 				o.Target = [7]string{p.Target.Group, p.Target.Version, p.Target.Kind, p.Target.Name, p.Target.Namespace, p.Target.AnnotationSelector, p.Target.LabelSelector}
@@ -1734,7 +1734,7 @@ func genOp17(g *Rng, k *types.Kustomization, present []string, adversarial bool)
 			names = append(names, im.Name)
 		}
 		one := func() string {
-			name := existingOr(g, names, c17ImageNames)
+			name := c17ExistingOr(g, names, c17ImageNames)
 			switch n := g.Intn(100); {
 			case n < 30:
 				return name + ":" + g.Pick(c17Tags)
@@ -1762,7 +1762,7 @@ func genOp17(g *Rng, k *types.Kustomization, present []string, adversarial bool)
 			names = append(names, r.Name)
 		}
 		one := func() string {
-			return existingOr(g, names, []string{"web", "db", "cache", "job"}) + g.Pick([]string{"=3", "=0", "=-1", "=+2", "=x", "", "=1=2", "=9223372036854775807", "=9223372036854775808", "=007"})
+			return c17ExistingOr(g, names, []string{"web", "db", "cache", "job"}) + g.Pick([]string{"=3", "=0", "=-1", "=+2", "=x", "", "=1=2", "=9223372036854775807", "=9223372036854775808", "=007"})
 		}
 		o.Pos = []string{one()}
 		if g.Chance(35) {
@@ -1823,7 +1823,7 @@ func c17RunOne(r *Run, c *c17Case, obs []c17StepObs, toModel bool) {
 	} else {
 		r.Count("init", "parses")
 	}
-	if len(trailingComments([]byte(c.Init))) > 0 {
+	if len(c17TrailingComments([]byte(c.Init))) > 0 {
 		r.Count("init_trailing_comment", "yes")
 	} else {
 		r.Count("init_trailing_comment", "no")
